@@ -7,6 +7,7 @@ CLAIMS = ("R1 SplitSet::digest and Split::canonical_key never read Split.path; d
           "R2 enumerate_parquet sorts the files by file_key before reading footers and sorts the splits by canonical_key after the last push, and returns that vector; "
           "R3 enumerate_parquet, target_split_bytes, digest have no nondeterminism source in their in-crate closure (metadata-cache reads excepted); "
           "R4 a function that maps a set of paths to canonical file keys must compare/deduplicate those keys (two files with one name cannot otherwise be told apart); "
+          "R6 the row-group number of a split is the row group's position in the footer (enumerate over the unfiltered row_groups()), with rows/bytes of that same row group; "
           "R5 per row group the running row offset starts at 0 and is advanced by exactly the rows of the split just pushed, on every iteration that pushes; the last piece takes the bytes left and every piece's bytes are subtracted from the remainder; every inventoried row group adds its bytes and rows to the table totals.")
 NOT_DECIDED = "the arithmetic identities themselves (sums, exact coverage) for run-time quantities; truthfulness of footers."
 
@@ -165,6 +166,25 @@ def run(F, R):
                         subok = any(origin(f, c.args[0]) == ("multi", left) and origin(f, c.args[1]) == byt and f.dominates(c.bb, push.bb) and any(dd[1] == "stmt" and origin(f, dd[2][1][1]) == ("call", c) for dd in f.defs()[left] if dd[1] == "stmt" and dd[2][1][0] == "use") for c in sub)
                         okb = last_guard and subok
         R.check(okb, "C11.R5", "last-piece-takes-bytes-left", "the last piece of a row group does not take the remaining bytes, or a piece's bytes are not subtracted from the remainder (pieces would not sum to the row group)", f.loc(bb), dict(bytes_operand=byt[0]))
+    # ---- R6 the row-group number recorded for a split is the row group's position in the footer
+    R.rule("C11.R6", "K5 provenance", "RowGroup.index is the enumerate() position over the unfiltered footer row_groups() (no filter/skip adaptor before enumerate), rows/bytes come from the same item, and Split.{row_group,path,file} are copied from that inventory entry")
+    rgl = [(i, rv) for i, j, dst, rv, line in f.stmts() if rv[0] == "agg" and rv[1] == "adt:" + S + "::enumerate_parquet::RowGroup"]
+    R.floor("C11.R6", "inventory literals", len(rgl), 1)
+    for i, rv in rgl:
+        m = dict(zip(rv[3], rv[2]))
+        ie, re_, be = k9.kexpr(f, m["index"]), k9.kexpr(f, m["rows"]), k9.kexpr(f, m["bytes"])
+        base = ie[:-2] if ie.endswith("@Some.0.0") else None
+        okpos = base is not None and (base.startswith("next(into_iter(enumerate(iter(row_groups(") or base.startswith("next(enumerate(iter(row_groups(")) 
+        oksame = base is not None and re_ == f"num_rows({base}.1)" and f"total_byte_size({base}.1)" in be
+        R.check(okpos, "C11.R6", "inventory:index-is-footer-position", f"the recorded row-group number is not the position in the footer's row_groups(): {ie[:120]}", f.loc(i), dict(index=ie[:200]))
+        R.check(oksame, "C11.R6", "inventory:rows-bytes-of-same-row-group", "rows/bytes are not taken from the enumerated row group itself", f.loc(i), dict(rows=re_[:120]))
+    for bb, rv in lits:
+        m = dict(zip(rv[3], rv[2]))
+        e = {k: k9.kexpr(f, m[k]) for k in ("row_group", "path", "file")}
+        base = e["row_group"][:-len(".index")] if e["row_group"].endswith(".index") else None
+        ok = base is not None and e["path"] in (f"{base}.path", base + ".path") and e["file"] == f"{base}.file"
+        R.check(ok, "C11.R6", "split:identity-from-one-inventory-entry", f"Split.row_group/path/file are not copied from one inventory entry: {e}", f.loc(bb), dict(exprs={k: v[-60:] for k, v in e.items()}))
+
     # pass 1: totals
     inv = [c for c in f.calls() if c.name.endswith("Vec::<T, A>::push") and c not in pushes and origin(f, c.args[1])[0] == "rv" and origin(f, c.args[1])[1][1].startswith("adt:" + S + "::enumerate_parquet::RowGroup")]
     R.floor("C11.R5", "inventory pushes", len(inv), 1)
